@@ -270,7 +270,9 @@ def order(d, prog, gg, acc):
         for w in u.inputs:
             if w[0] == 'c':
                 c = d.constants[w[1]]
-                if c in tags and c == int(c):
+                if c == c and abs(c) < 1e9 and c == int(c) \
+                        and int(c) in tags and gg.tag_belongs_to(
+                        prog['nodes'][tags[int(c)]], u.cls):
                     pos.append((u.index, tags[int(c)], u))
                     break
     out = []
@@ -724,17 +726,22 @@ def run_shard(spec, acc):
                 if last is not None and last.tb_frame.f_code.co_filename \
                         .startswith('<program'):
                     site = 'graph-function'
-                suffix = ''
-                msg = safe(str, e)
-                if prog.get('folding_agnostic') and prog.get('foldable_nodes') \
-                        and (isinstance(e, ZeroDivisionError) or 'rate' in msg
-                             or any(t in msg for t in ("'float'", "'int'",
-                                                       "'bool'"))):
-                    suffix = '/operand-folded-to-number'
+                key = f'C02/valid-program-rejected/{type(e).__name__}/{site}'
+                manifestation = key
+                if prog.get('folding_agnostic') and prog.get('foldable_nodes'):
+                    # attribution probe (keys only): does it build once the
+                    # library does not hand Python numbers back (x*0 -> 0.0)?
+                    from vf.props.C01 import no_folding
+                    try:
+                        with no_folding():
+                            scgf.parse(bytes(gg.build(prog).as_bytes()))
+                        key = 'C02/operand-folded-to-python-number'
+                        acc.count(f'folded_operand_{type(e).__name__}@{site}')
+                    except Exception:
+                        pass
                 acc.violation(
-                    f'C02/valid-program-rejected/{type(e).__name__}/{site}'
-                    + suffix,
-                    {'case': i, 'kind': kind,
+                    key,
+                    {'case': i, 'kind': kind, 'manifestation': manifestation,
                      'error': safe(lambda: repr(e)[:300]),
                      'script': gg.script(prog)[:6000], 'tb': safe(short_tb, e, 5)})
             continue
